@@ -5594,8 +5594,20 @@ impl PeerConnectionInner {
                         })
                     });
             let r = sctp_reason.unwrap_or(reason);
-            let _ = self.disconnect_reason.send(Some(r.clone()));
-            r
+            // Check-and-set in one step: a loop task may have recorded a reason since the
+            // check above (first reason wins).
+            let mut winner = r.clone();
+            self.disconnect_reason.send_if_modified(|cur| match cur {
+                Some(first) => {
+                    winner = first.clone();
+                    false
+                }
+                None => {
+                    *cur = Some(r.clone());
+                    true
+                }
+            });
+            winner
         } else {
             reason_guard.clone().unwrap()
         };
